@@ -115,6 +115,8 @@ def verdicts_unit(res: CheckResult, hist: dict, expected: Dict[int, dict], ic: A
                     import re
                     m = re.search(r"cond_(\d+)", str(exc))
                     got = ("violation", int(m.group(1)) if m else -1)
+                except Exception as exc:  # noqa
+                    got = ("exception", type(exc).__name__)
                 n += 1
                 if got != want:
                     res.violation("def.verdict_ne_lists",
